@@ -27,7 +27,10 @@ def cond_text(c, rnd, kw):
     if t == "plus":
         return rnd.choice([f"{kw} {c['m']} + 0", f"{kw} ({c['m']} + 0) != 0", f"{kw} {c['m']} +0"])
     if t == "const":
-        return f"{kw} {c['n']}"
+        # the constant in any of its spellings (a zero need not be spelled 0)
+        n = c["n"]
+        sp = [str(n), str(n), hex(n), "0" + oct(n)[2:] if n else "00", f"{n}u", f"{n}L", f"({n})"]
+        return f"{kw} {rnd.choice(sp)}"
     if t == "bad":
         return rnd.choice([f"{kw} (", f"{kw}", f"{kw} 1 +", f"{kw} 'ab' ==", f"{kw} 1/0"])
     raise ValueError(t)
